@@ -168,6 +168,17 @@ def _tree_job(args):
                 elif r_ext < 0.7:
                     extkw["regex_external_exclusions"] = ("zzzzNEVERzzzz.*",)
             unf = scan.real_scan(base, root, mp, exclusions=("zzzzNEVERzzzz",), **extkw)
+            # an EMPTY exclusion tuple is an exclusion tuple too: it matches nothing, so the scan is the scan without patterns
+            # (D29: exclusions=() alone ended in a TypeError); the spellings rotate over the projects
+            empty_kw = [dict(exclusions=()), dict(exclusions=(), regex_exclusions=()), dict(exclusions=(), regex_exclusions=None)][it % 3]
+            emp = scan.real_scan(base, root, mp, **empty_kw, **extkw)
+            out["stats"]["empty_exclusion_tuples"] = out["stats"].get("empty_exclusion_tuples", 0) + 1
+            if unf[0] == "OK" and emp[:3] != unf[:3] and not any("__pycache__" in d0 for d0 in map(scan.dotted, list(dirs) + list(files))):
+                out["violations"].append((dict(dirs=[list(d) for d in dirs], files={scan.dotted(f): (scan.render_v(v) if v["py"] else None) for f, v in files.items()},
+                                               module_path=list(mp), options={k: (list(v) if v is not None else None) for k, v in empty_kw.items()},
+                                               got=list(emp[1:3]) if emp[0] == "OK" else emp[1], documented=list(unf[1:3])),
+                                          f"empty exclusion tuple {empty_kw}: the scan is not the scan without patterns", {"kind": "empty_exclusions"}))
+                continue
             if keep_ext and unf[0] == "OK":
                 mpd = scan.dotted(mp)
                 inner = lambda m: m == mpd or m.startswith(mpd + ".") or mpd.startswith(m + ".")     # at or below module_path, or one of its ancestors
